@@ -48,8 +48,16 @@ package domain_matcher
 //@   ensures len(result.ac) == bitLength && len(result.trie) == bitLength
 //@   ensures result.err == nil
 
+// (ValidDomainChars is a package variable initialised once with NewValidChars and never reassigned)
 //@ func (*AhocorasickSlimtrie).AddSet
-//@   requires n != nil
+//@   requires n != nil && ValidDomainChars != nil
 //@   requires len(n.toBuildAc) == len(n.toBuildTrie) && len(n.regexp) == len(n.toBuildTrie)
 //@   dyncalls noeffect
 //@   modifies *
+//@   let inRange() = 0 <= bitIndex && bitIndex < len(n.toBuildTrie) && len(n.toBuildAc) == len(n.toBuildTrie) && len(n.regexp) == len(n.toBuildTrie)
+//@   loop 1
+//@     invariant inRange()
+//@   loop 2
+//@     invariant inRange()
+//@   loop 3
+//@     invariant inRange()
